@@ -666,11 +666,35 @@ def toCharsNatural (f : Fmt) : Nat → Limbs → List Char → Option (List Char
       let c := Char.ofNat (48 + (toBuiltin f i32 rem).toNat)
       if isZero o.q then some (c :: acc) else toCharsNatural f fuel o.q (c :: acc)
 
-/-- `cnl::to_chars_static(value)` for a value within `numeric_limits` (the routine's documented domain) -/
+/-- `cnl::to_chars(first, last, value)` with room for the whole numeral (`to_chars_non_zero`): a negative value is
+divided by ten *before* the sign changes (`quotient = value / 10`, digits of `-quotient`, last digit
+`-(value - quotient * 10)`), so the most negative number of the storage is printed too -/
 def toChars (f : Fmt) (a : Limbs) : Option String :=
   if isZero a then some "0"
-  else if isNeg f a then (toCharsNatural f (f.N + 1) (negate f.w a) []).map (fun ds => String.ofList ('-' :: ds))
+  else if isNeg f a then
+    let ten := fromBuiltin f i32 10
+    match opDiv f a ten with
+    | none => none
+    | some o =>
+      let rem := opSub f.w a (opMul f.w o.q ten)
+      let c := Char.ofNat (48 + (toBuiltin f i32 (negate f.w rem)).toNat)
+      if isZero o.q then some (String.ofList ['-', c])
+      else (toCharsNatural f (f.N + 1) (negate f.w o.q) []).map (fun ds => String.ofList ('-' :: ds ++ [c]))
   else (toCharsNatural f (f.N + 1) a []).map String.ofList
+
+/-- `cnl::to_chars(first, first + len, value)`: every `*ptr = …` is guarded by `ptr == last`, the call fails with
+`value_too_large` exactly when the numeral is longer than the buffer -/
+def toCharsBuf (f : Fmt) (len : Nat) (a : Limbs) : Option (Option String) :=
+  (toChars f a).map fun s => if s.length ≤ len then some s else none
+
+/-- number of decimal digits of `n` (`1` for zero) -/
+def decLen (n : Nat) : Nat := (Nat.toDigits 10 n).length
+
+/-- `to_chars_capacity<wide_integer<digits, _>>{}()` (base ten): `int(digits * ln2 / ln10) + 1` characters and one
+for the sign of a signed type.  The C++ evaluates the product in `double`; `digits·log₁₀2` stays away from
+an integer for every `digits ≤ 4096` by more than `5·10⁻⁵` (nearest: 2136 ↦ 643.00007), so the truncation equals the exact
+`⌊digits·log₁₀2⌋ = decLen (2^digits) - 1` there. -/
+def toCharsCapacity (digits : Nat) (signed : Bool) : Nat := decLen (2^digits) + (if signed then 1 else 0)
 
 /-! ## numeric_limits<wide_integer<Digits, Narrowest>> -/
 
